@@ -115,3 +115,39 @@ Proof.
       - inversion Hs as [|? ? ? c Hin Hs']; subst; [right; right; split; reflexivity|]. destruct Hin. }
     destruct (K _ _ Ha) as [[-> ->]|[[-> ->]|[-> ->]]]; destruct (K _ _ Hb) as [[-> ->]|[[-> ->]|[-> ->]]]; try reflexivity; discriminate.
 Qed.
+
+(* ---- uncache only after a successful write keeps every node reachable ---- *)
+Lemma inN_spec : forall x l, inN x l = true <-> In x l.
+Proof.
+  intros x l. unfold inN. rewrite existsb_exists. split.
+  - intros (y & Hy & E). apply N.eqb_eq in E. subst. exact Hy.
+  - intro H. exists x. split; [exact H|apply N.eqb_refl].
+Qed.
+
+Theorem covered_commit_ok : forall univ w s, covered univ s -> covered univ (commit_ok w s).
+Proof.
+  intros univ w s C h Hh. destruct (C h Hh) as [M|D].
+  - destruct (inN h w) eqn:E.
+    + right. cbn [t_dsk commit_ok]. apply in_or_app. right. apply inN_spec. exact E.
+    + left. cbn [t_mem commit_ok]. apply filter_In. split; [exact M|rewrite E; reflexivity].
+  - right. cbn [t_dsk commit_ok]. apply in_or_app. left. exact D.
+Qed.
+
+Theorem covered_commit_failed : forall univ p s, covered univ s -> covered univ (commit_failed p s).
+Proof.
+  intros univ p s C h Hh. destruct (C h Hh) as [M|D]; [left; exact M|right].
+  cbn [t_dsk commit_failed]. apply in_or_app. left. exact D.
+Qed.
+
+(* the eager variant loses nodes: one dirty node, put into the batch, flush failed *)
+Lemma eager_uncache_loses_nodes :
+  covered [7%N] (mkTdb [7%N] []) /\ ~ covered [7%N] (commit_failed_eager [] [7%N] (mkTdb [7%N] [])).
+Proof.
+  split.
+  - intros h [<-|[]]. left. left. reflexivity.
+  - intro C. destruct (C 7%N (or_introl eq_refl)) as [M|D]; [cbn in M|cbn in D]; contradiction.
+Qed.
+
+Theorem uncache_discipline : forall (univ w p : list N) (s : tdb),
+  covered univ s -> covered univ (commit_ok w s) /\ covered univ (commit_failed p s).
+Proof. intros univ w p s C. split; [apply covered_commit_ok|apply covered_commit_failed]; exact C. Qed.
